@@ -10,6 +10,7 @@ configurable N (0..255).
 -/
 import UpfVerif.Model.Core
 import UpfVerif.Lemmas.Core
+import UpfVerif.Lemmas.CoreHandlers
 
 namespace UpfVerif.C06
 open UpfVerif.Core
@@ -100,6 +101,76 @@ theorem retained_survives_tx_timeout (st : State) (addr : String) (seq : BitVec 
     · rfl
     · split <;> rfl
   rw [this]; exact h
+
+/-- does the event concern the receive transaction `k` itself — a copy of the request, or its retention expiry? -/
+def Event.concerns (k : String × BitVec 24) : Event → Prop
+  | .request a q _ => (a, q) = k
+  | .rxTimeout a q => (a, q) = k
+  | _ => False
+
+/-- **the retained response survives every event that is not its own**: requests from other peers or with other sequence
+    numbers (whatever they do — establish, modify, delete, re-associate), their duplicates, responses of any kind, expiries of
+    any other timer, reports — none touches the entry of `k` -/
+theorem retained_untouched (st : State) (k : String × BitVec 24) (e : Event) (env : Env) (hk : ¬ Event.concerns k e) :
+    alGet (step st e env).1.rx k = alGet st.rx k := by
+  cases e with
+  | ignored => simp [step]
+  | rxTimeout addr seq =>
+    have hne : k ≠ (addr, seq) := fun hc => hk (by simp [Event.concerns, hc])
+    simp only [step]
+    exact alGet_alDel_other _ _ _ hne
+  | request addr seq r =>
+    have hne : k ≠ (addr, seq) := fun hc => hk (by simp [Event.concerns, hc])
+    unfold step
+    simp only
+    split
+    · split <;> rfl
+    · have hstep := handleReq_rx { st with rx := alSet st.rx (addr, seq) {} } addr seq r env { pending := env.pending }
+      rcases hstep with e | ⟨m', _, e⟩
+      · simp only at e; rw [e]; exact alGet_alSet_other _ _ _ _ hne
+      · simp only at e; rw [e, alGet_alSet_other _ _ _ _ hne]; exact alGet_alSet_other _ _ _ _ hne
+  | srResponse addr seq seid =>
+    unfold step
+    simp only
+    split
+    · rfl
+    · rename_i tx _
+      split
+      · split
+        · rfl
+        · rename_i s _
+          have hd := deleteSess_same { st with tx := alDel st.tx (addr, seq) } s.rnode s.localID env { pending := env.pending }
+          generalize State.deleteSess { st with tx := alDel st.tx (addr, seq) } s.rnode s.localID env { pending := env.pending } = R at hd
+          obtain ⟨st2, c2, s2, rs2⟩ := R
+          simp only
+          rw [hd.1]
+      · rfl
+  | otherResponse addr seq =>
+    unfold step
+    simp only
+    split <;> rfl
+  | txTimeout addr seq =>
+    unfold step
+    simp only
+    split
+    · rfl
+    · split <;> rfl
+  | report x items =>
+    have : (step st (.report x items) env).1.rx = st.rx := by
+      simp only [step]
+      exact serveReport_rx st x items _
+    rw [this]
+
+/-- … hence after ANY history of such events the entry is what it was, and a copy of the request arriving then is answered
+    with the very response the first copy got, without being executed again -/
+theorem dup_after_any_history (h : List (Event × Env)) (st : State) (k : String × BitVec 24)
+    (hk : ∀ p ∈ h, ¬ Event.concerns k p.1) :
+    alGet (h.foldl (fun st (p : Event × Env) => (step st p.1 p.2).1) st).rx k = alGet st.rx k := by
+  induction h generalizing st with
+  | nil => rfl
+  | cons p h ih =>
+    simp only [List.foldl_cons]
+    rw [ih _ (fun q hq => hk q (by simp [hq])), retained_untouched st k p.1 p.2 (hk p (by simp))]
 
 /-! ### retention window arithmetic (transaction.go:122-138) -/
 
